@@ -1,22 +1,22 @@
 CONSTANTS
   N = 3
-  L = 2
+  L = 1
   Cap = 2
   HasHead = TRUE
   Manual = FALSE
   HasPay = FALSE
   HasPlans = TRUE
-  HasSerial = TRUE
+  HasSerial = FALSE
   HasHist = TRUE
-  HasLog = FALSE
+  HasLog = TRUE
   Verbose = FALSE
   InjCnt <- NoInj
-  DefMask <- AllDef
+  DefMask <- SparseDef
   MaxActs = 1
   WithMonitors = TRUE
-  EnvOps <- SmokeOps
-  EnvActs <- SmokeActs
-  EnvPoints <- AllPoints
+  EnvOps <- LogOps
+  EnvActs <- LogActs
+  EnvPoints <- LogPoints
 INIT Init
 NEXT Next
 VIEW StView
